@@ -44,9 +44,10 @@ RULE = ("pairs (v, w) from a recursive generator over the supported types (depth
 ASSUMPTIONS = ["floats are small dyadic values q/4 (no NaN/inf: nan != nan, an array containing NaN never equals itself)",
                "arbitrary picklable objects are instances of classes with __eq__ by (class, id) and __hash__ = None; "
                "the md5 of their cloudpickle is modelled as an injective function of (class, id)",
-               "lists given to sorted() have fewer than 64 elements (CPython's binary insertion sort path)",
+               "sets / mappings are sorted by pipefunc.cache._sort_key, a total order: the result does not depend on the "
+               "sorting algorithm (the model still runs CPython's binary insertion sort, lists < 64 elements)",
                "str/bytes compared by code units (UTF-8 for non-ASCII str: order preserving)"]
-TRUSTED = ["Model/PyVal.v (Python ==, <, hash, sorted on the value universe) and Model/ToHashable.v mirror CPython / "
+TRUSTED = ["Model/PyVal.v (Python ==, hash, the canonical sort key _sort_key on the value universe) and Model/ToHashable.v mirror CPython / "
            "pipefunc/cache.py by hand; tie = per-run differential execution on the generated pairs",
            "cloudpickle determinism and md5 collision freedom for the opaque objects (sampled, not modelled)"]
 
@@ -1499,8 +1500,8 @@ def generate(rng, tier, mult):
                 calls.append(_call(p0 + [["T", [["s", nm], v]] for nm, v in sorted(k0, key=lambda kv: kv[0])], []))
             elif op == 1 and k0:    # ... only the last keyword
                 calls.append(_call(p0 + [["T", [["s", k0[-1][0]], k0[-1][1]]]], k0[:-1]))
-            elif op == 2 and p0:    # last positional -> keyword
-                nm = rng.choice([x for x in ["x", "y", "w", "a", "z"] if x not in [q for q, _ in k0]])
+            elif op == 2 and p0 and len(k0) < 5:    # last positional -> keyword
+                nm = rng.choice([x for x in ["x", "y", "w", "a", "z", "v"] if x not in [q for q, _ in k0]])
                 calls.append(_call(p0[:-1], k0 + [[nm, p0[-1]]]))
             elif op == 3 and k0:    # a keyword -> positional
                 calls.append(_call(p0 + [k0[0][1]], k0[1:]))
